@@ -27,6 +27,19 @@ def scratch():
     return tempfile.mkdtemp(dir=d)
 
 
+STEM_POOL = ['zeta', 'alpha', 'part10', 'part9', 'Mid', 'beta2', 'b', 'a_last', 'Zed', 'core']
+
+
+def stems_for(texts):
+    """file names of the additional files: distinct, and (whenever there are two or more) NOT in sorted order, so that the
+    order of initialiser declarations and calls can only come from the order of the sources"""
+    rr = random.Random(common.sha(repr(texts)))
+    names = rr.sample(STEM_POOL, len(texts) - 1)
+    if len(names) >= 2 and names == sorted(names):
+        names.reverse()
+    return ['main'] + names
+
+
 def run_script(script, args, cwd):
     env = dict(os.environ, PYTHONPATH=common.REPO, PYTHONHASHSEED='0')
     p = subprocess.run(['/venv/bin/python', os.path.join(common.REPO, 'scripts', script)] + args, cwd=cwd, env=env,
@@ -58,7 +71,7 @@ def _pyb_job(job):
         return m
     mods = [nest(m, chain) for m in mods]
     texts = [G.text(G.tokens(m)) for m in mods]
-    stems = ['main'] + ['part%d' % i for i in range(1, len(texts))]
+    stems = stems_for(texts)
     it0 = pc.impl_items(texts[0])
     if it0[0] != 'ok':
         return ('skip', it0[0])
@@ -130,7 +143,7 @@ def run(rep, tier, seed, replay=None, proof_ok=True):
                 continue
             r = r[1]
             texts = r['texts']
-            stems = ['main'] + ['part%d' % i for i in range(1, len(texts))]
+            stems = stems_for(texts)
             rep.hit(common.sha(repr(texts) + repr(r['top']) + repr(r['ignore'])), len(texts) > 1)
             cfg = [r['top'], r['ignore'] if r['ignore'] is not None else [], r['boost']]
             # (a) API main file vs model, and its structure
